@@ -53,6 +53,8 @@ def gen(rng, tier):
         lines = ["m.new 1"] + setup + [mext_line]
         nsteps = rng.randint(40, 90) if tier == "quick" else rng.randint(40, 200)
         x = rng.uniform(-1.0, 1.0)
+        if mode == "walls":
+            x = uw + rng.uniform(0.05, 0.4)       # beyond the wall from the start: the bypassing bias acts on the atoms at (nearly) every step
         x0 = x
         hist = []
         t = 0; segs = 0
